@@ -46,6 +46,9 @@ OVERLONG = "fn  over( ){ let %s = 1; }\n" % ("x" * 130)
 # a cfg_if! body the module resolver parses itself (for a path, never for standard input), holding something the parser
 # recovers from under the default edition; what follows it must be formatted as if the resolver had not looked
 CFGERR = "cfg_if::cfg_if! { if #[cfg(unix)] { async fn in_cfg() {} } }\nfn  after_cfg( ){ assert!(1+1==2); assert!(2+2==4); }\n"
+# a transcriber in which a metavariable is glued to an identifier, next to another metavariable whose placeholder spans
+# the junction: putting the names back must not depend on the order in which a hash map yields them
+MACGLUE = "macro_rules! glue {\n    ($ab:ident, $za:expr) => {\n        let xz$ab   =   $za;\n    };\n    ($az:ident, $bc:ident) => {\n        $az.pizza$bc  ( );\n    };\n}\n"
 MACCALL = "fn  mc( ){foo!( a+1 ,b*2 );let v=bar![1+1 ,2];}\n"
 SKIPMAC = '''#![rustfmt::skip::macros(keep,keep2)]
 fn  uses( ){keep!( a ,b );keep2!(1 ,  2);other!( a ,b );}
@@ -63,7 +66,7 @@ def generate(rng, tier):
         else:
             d = "d%d" % i
         dirs.append(d)
-        extra = rng.choice(["", "", "", MACRO, SKIPMAC, ASYNC18, ASYNC18, ASYNC15, "perfile", "perfile", "perfile", "warn", "warn", CFGERR, CFGERR])
+        extra = rng.choice(["", "", "", MACRO, SKIPMAC, ASYNC18, ASYNC18, ASYNC15, "perfile", "perfile", "perfile", "warn", "warn", CFGERR, CFGERR, MACGLUE, MACGLUE])
 
         def body(r, extra=extra):
             if extra == "perfile":
